@@ -97,9 +97,10 @@ func provedDistinct(blk *ssa.BasicBlock, a, b ssa.Value) bool {
 
 // checkLinkStores judges the set stores of fn given the values known to be roots; it returns the
 // candidate values actually used (as index or stored value).
-func checkLinkStores(c *Ctx, r *RuleResult, fn *ssa.Function, fnName string, isRoot func(v ssa.Value, at *ssa.BasicBlock) bool, needDistinct bool) map[ssa.Value]bool {
+func checkLinkStores(c *Ctx, r *RuleResult, fn *ssa.Function, fnName string, isRoot func(v ssa.Value, at *ssa.BasicBlock) bool, needDistinct bool) (map[ssa.Value]bool, bool) {
 	P := NewProver(c, fn)
 	used := map[ssa.Value]bool{}
+	allDistinct := true
 	type linkAt struct {
 		idx ssa.Value
 		blk *ssa.BasicBlock
@@ -134,7 +135,11 @@ func checkLinkStores(c *Ctx, r *RuleResult, fn *ssa.Function, fnName string, isR
 		case v != s.idx && isRoot(v, s.st.Block()):
 			used[v] = true
 			links = append(links, linkAt{s.idx, s.st.Block(), posOf(s.st)})
-			ok := !needDistinct || provedDistinct(s.st.Block(), s.idx, v)
+			distinct := provedDistinct(s.st.Block(), s.idx, v)
+			if !distinct {
+				allDistinct = false
+			}
+			ok := !needDistinct || distinct
 			r.oblig(ok)
 			if !ok {
 				r.find(fnName+":"+desc+" roots not known to differ", c.instrPos(s.st), "%s links root %s under root %s without having established that they differ: uniting an element with itself makes a root its own parent (or, after the rank bump, a child of an unrelated element)", fnName, valName(s.idx), valName(v))
@@ -155,7 +160,7 @@ func checkLinkStores(c *Ctx, r *RuleResult, fn *ssa.Function, fnName string, isR
 			r.find(fnName+":"+desc+" value is neither the other root nor a rank bump", c.instrPos(s.st), "%s stores %s into a root's entry: it must be the other root (link) or the root's own entry minus one (rank)", fnName, valName(v))
 		}
 	}
-	return used
+	return used, allDistinct
 }
 
 func ruleRootLink(c *Ctx, r *RuleResult, fnName string, finders map[string]bool) {
@@ -199,7 +204,7 @@ func ruleRootLink(c *Ctx, r *RuleResult, fnName string, finders map[string]bool)
 					params[p] = i
 				}
 			}
-			used := checkLinkStores(c, r, h, hname, func(v ssa.Value, at *ssa.BasicBlock) bool {
+			used, distinctInside := checkLinkStores(c, r, h, hname, func(v ssa.Value, at *ssa.BasicBlock) bool {
 				_, isParam := params[v]
 				return isParam || guardedRoots(at)[v]
 			}, false)
@@ -219,7 +224,10 @@ func ruleRootLink(c *Ctx, r *RuleResult, fnName string, finders map[string]bool)
 					r.find(fnName+":"+desc+" argument "+h.Params[i].Name()+" is not a root", c.instrPos(call), "%s passes %s to %s, which links it as a root, but it is neither a result of Find nor an element whose entry was just tested negative", fnName, valName(a), hname)
 				}
 			}
-			if len(rootArgs) == 2 {
+			if len(rootArgs) == 2 && distinctInside {
+				r.inst("%s: %s (the helper itself returns early when the two roots coincide)", fnName, desc)
+				r.oblig(true)
+			} else if len(rootArgs) == 2 {
 				ok := provedDistinct(b, rootArgs[0], rootArgs[1])
 				r.inst("%s: %s passes two different roots", fnName, desc)
 				r.oblig(ok)
@@ -267,7 +275,37 @@ func ruleCompress(c *Ctx, r *RuleResult, fnName string) {
 	fn := c.Fn(fnName)
 	stores := setStores(c, fn)
 	if len(stores) == 0 {
-		r.note("%s: no store into the set (no path compression)", fnName)
+		// the walk may live in a helper whose result is returned as is
+		followed := false
+		for _, b := range fn.Blocks {
+			for _, in := range b.Instrs {
+				call, ok := in.(*ssa.Call)
+				if !ok {
+					continue
+				}
+				h := call.Call.StaticCallee()
+				if h == nil || !c.inModule(h) || h.Blocks == nil || h == fn || len(setStores(c, h)) == 0 {
+					continue
+				}
+				followed = true
+				returned := false
+				for _, ref := range *call.Referrers() {
+					if ret, ok := ref.(*ssa.Return); ok && len(ret.Results) > 0 && ret.Results[0] == ssa.Value(call) {
+						returned = true
+					}
+				}
+				r.inst("%s: returns the result of %s unchanged", fnName, c.short(h))
+				r.oblig(returned)
+				if !returned {
+					r.find(fnName+":result of "+c.short(h)+" not returned", c.instrPos(call), "%s lets %s rewrite parent entries but does not return that helper's result as the representative", fnName, c.short(h))
+				}
+				ruleCompress(c, r, c.short(h))
+			}
+		}
+		if !followed {
+			r.note("%s: no store into the set (no path compression)", fnName)
+		}
+		return
 	}
 	for _, s := range stores {
 		desc := c.srcAt(s.st.Pos())
